@@ -350,6 +350,14 @@ func (w *world) read(h *mhandle, op *Op) want {
 	if len(fmts) == 0 {
 		fmts = []string{"*l"}
 	}
+	for _, f := range fmts {
+		if f == "" || f[0] == '*' && f != "*l" && f != "*a" && f != "*n" {
+			// a malformed format: nothing is stated (5.1 raises "invalid format");
+			// only the canaries apply, and where the cursor is afterwards is unknown
+			h.curUnknown = true
+			return want{kind: expAny}
+		}
+	}
 	data := w.f.data
 	n := int64(len(data))
 	wt := want{kind: expValues}
